@@ -18,7 +18,6 @@ import loader_gen as G
 import vlib
 
 GEN_DEPS = ('builtins', 'prefixes')
-DIRECTION_FAULTS = ('both_sources', 'both_receivers', 'no_direction_source', 'no_direction_target')
 LEAF_FAULTS = ('undefined_identifier', 'undefined_number_units')
 
 
@@ -73,10 +72,6 @@ def fault_cases(ctx):
                 for b in range(a, len(classes)):
                     fa, fb = rng.choice(by[classes[a]]), rng.choice(by[classes[b]])
                     if fa == fb:
-                        continue
-                    # a second feed can turn an in/in (or none/in) sibling connection into one whose source IS fed: the
-                    # document then carries only the lax-interface fault (known finding), not two independent faults
-                    if {fa[0], fb[0]} & {'second_feed'} and {fa[0], fb[0]} & {'both_receivers', 'no_direction_source'}:
                         continue
                     d1 = G.apply_fault(doc, fa)
                     try:
@@ -198,36 +193,6 @@ def replay(ctx, case):
 
 
 # ---- known findings -------------------------------------------------------------------------------------------------
-def _pairs(doc):
-    for k in doc['conns']:
-        for a, b in k['maps']:
-            v1, k1, v2, k2, rel = G.relevant(doc, k, a, b)
-            if v1 is not None and v2 is not None:
-                yield v1, k1, v2, k2, rel
-
-
-def sibling_interfaces_not_in_out(case):
-    """the only faults of the document are direction faults, and some connection between SIBLING components joins
-    public interfaces that are not an (in, out) pair"""
-    doc = case.get('doc')
-    if not doc or case['kind'] == 'schema':
-        return False
-    if case['kind'] != 'enum' and not all(f in DIRECTION_FAULTS for f in fault_names(case)):
-        return False
-    if case['kind'] == 'enum' and doc['enum'][4] != 'siblings':
-        return False
-    return any(rel == 'siblings' and {v1[k1], v2[k2]} != {'in', 'out'} for v1, k1, v2, k2, rel in _pairs(doc))
-
-
-def unrelated_components_connected(case):
-    """a connection between components that are neither siblings nor parent and child"""
-    doc = case.get('doc')
-    if not doc or case['kind'] == 'schema':
-        return False
-    if case['kind'] != 'enum' and fault_names(case):
-        return False
-    return any(rel == 'unrelated' for v1, k1, v2, k2, rel in _pairs(doc))
-
-
-KNOWN_PREDICATES = {'sibling_interfaces_not_in_out': sibling_interfaces_not_in_out,
-                    'unrelated_components_connected': unrelated_components_connected}
+# the two findings about _determine_connection_direction (sibling interfaces, unrelated components) were repaired by
+# the fix: commit 9e0bca6; nothing is suppressed any more
+KNOWN_PREDICATES = {}
